@@ -135,3 +135,22 @@ func Harness_C06_ReentrantHook() {
 	_ = nEv
 	_ = sup0
 }
+
+// C06 frame: the expected L1 sequence is moved by delivered deposits only — no other message (bridge info,
+// params, validators, fee pool, withdrawals) rewinds, skips or re-initialises it, whatever the state it finds
+// (in particular a bridge registered late, after deposits were already relayed).
+func Harness_C06_SequenceFrame() {
+	stdBounds()
+	k, ms, ctx := setup()
+	next := k.nextL1(ctx)
+	verifAssume(next < 1<<62)
+	st := newStep(ms)
+	verifAssume(st.which != mFinalizeDeposit)                              // DeliveryStep's subject
+	verifAssume(st.which != mExecuteMessages && st.which != mUpdateOracle) // stub-routed inner messages / oracle: C12, C15
+	st.run(ctx)
+	if !st.ok() {
+		return
+	}
+	verifReach("another message succeeded")
+	verifAssert("only a delivered deposit moves the expected L1 sequence", k.nextL1(ctx) == next)
+}
